@@ -190,7 +190,11 @@ def run_source(env_name: str, src: str, datasets: list[dict[str, Any]], res: Sha
                     except Exception as e:  # noqa: BLE001
                         out.append((_sig_exc(phase, e), {"phase": phase, "data_index": di}, f"{type(e).__name__}: {e}"))
     except TimeBudget:
-        out.append(("C02:cpu-budget-exceeded", {"phase": "any", "budget_s": budget}, f"did not finish within {budget} s"))
+        import re
+
+        # (a range literal piped into a filter is the recorded finding: the filter materialises the range outside every limit)
+        cls = ":source:range-literal-through-filter" if re.search(r"\(\s*[^()|]*\.\.[^()|]*\)\s*\|", src) else ""
+        out.append(("C02:cpu-budget-exceeded" + cls, {"phase": "any", "budget_s": budget}, f"did not finish within {budget} s"))
     if res is not None:
         if nontrivial:
             res.nontrivial.add(h64([env_name, src]))
@@ -594,7 +598,8 @@ def _prepare(tier: str) -> None:
         corp_m = [s for s in corp_m if 10 <= len(s) <= 80][:500]
         inserts = c17.QUICK_INSERTS
     else:
-        corp_m = corp
+        # (parse + render of every mutant: the sources of <= 120 characters; every source is run unmutated)
+        corp_m = [s for s in corp if len(s) <= 120]
         inserts = c17.SIGMA
     corp = list(corp) + HUGE_SOURCES + REGRESSION_SOURCES
     _SP.update(tier=tier, corpus=corp, corp_m=corp_m, inserts=inserts, pumps=pumps(), escapes=escape_sources(tier))
@@ -694,7 +699,7 @@ def run_shard(shard) -> ShardResult:
         _sources(res, _SP["escapes"][shard[2] : shard[3]], env_names=("default",), datasets=DATASETS[:1])
     elif kind == "sched":
         res.cases += 1
-        for sig, case, exp, obs in check_schedule(shard[2], shard[3], res):
+        for sig, case, exp, obs in check_schedule(shard[2], shard[3], res, 20000 if tier == "quick" else 100000):
             res.violation(sig, {"tier": tier, **case}, exp, obs)
     else:
         _sources(res, _SP["pumps"][shard[2] : shard[3]], env_names=("default",), datasets=DATASETS[:1], budget=10.0)
